@@ -13,7 +13,7 @@ from __future__ import annotations
 import enum
 import random
 
-from vf import contracts, core
+from vf import contracts, core, repotests
 from vf.ref import config as C
 from vf.ref import crypto as R
 from vf.ref import tlv
@@ -184,6 +184,9 @@ def sample_block(name):
 
 
 def check_case(case, ctx):
+    if case.get("op") == "repo_test":
+        repotests.run(ctx, ['tests/test_c2.py', 'tests/test_client.py'], [contracts.install_c2], {"HttpDataTransform.init.frame": "HttpDataTransform.init.frame"})
+        return
     from dissect.cobaltstrike import beacon
 
     contracts.install_c2()
@@ -271,6 +274,7 @@ def plan(tier, seed):
     q = tier == "quick"
     shards = [{"kind": "built", "n": 25 if q else 1300} for _ in range(12)]
     shards += [{"kind": "samples", "n": 12 if q else 500} for _ in range(4)]
+    shards.append({"kind": "repo_tests"})
     for s in shards:
         s["budget_s"] = 50 if q else 2400
         s["timeout_s"] = 300 if q else 5400
@@ -278,6 +282,9 @@ def plan(tier, seed):
 
 
 def run_shard(shard, ctx):
+    if shard["kind"] == "repo_tests":
+        repotests.run(ctx, ['tests/test_c2.py', 'tests/test_client.py'], [contracts.install_c2], {"HttpDataTransform.init.frame": "HttpDataTransform.init.frame"})
+        return
     rng = ctx.rng
     if shard["kind"] == "built":
         for _ in range(shard["n"]):
